@@ -253,9 +253,20 @@ def run(ck):
     from . import c16 as _c16
     _c16.run(_RV05(ck, {"C16.1": "C05.11"}, only_constructs=("createPeaks",)))
     refined_seeds(ck, "C05.12")
+    ck.clause("C05.14", "every output file is created afresh (mode 'w', as C08.2 / C09.9): a file opened for appending keeps the records "
+                        "of the run before - several records per query, out of order")
+    from . import c08 as _c08_05
+    if ck.wants("C05.14"):
+        _c08_05._file_naming(ck, rule="C05.14")
+    ck.clause("C05.15", "the references a query is searched on do not depend on which queries were selected: each reader call is "
+                        "restricted by the ids of its own kind (as C10.3) - the best candidate is chosen over all references")
+    from .c10 import id_filters as _idf05
+    if ck.wants("C05.15"):
+        _idf05(_RV05(ck, {"C10.3": "C05.15"}, only_constructs=("Program.__readMaps",)), "C10.3", "C10.4")
     ck.clause("C05.13", "a peak keeps the score it is given (as C16.8 / C12.7): the top-count seeds are the highest *computed* scores")
     from .c12 import stored_unconverted as _su05
-    _su05(_RV05(ck, {"C12.7": "C05.13"}, only_files=("src/correlation/peak.py",)), "C12.7")
+    if ck.wants("C05.13"):
+        _su05(_RV05(ck, {"C12.7": "C05.13"}, only_files=("src/correlation/peak.py",)), "C12.7")
     from .c08 import aliased_lists
     aliased_lists(ck, "C05.10")      # a filtered (one-per-query) list extended in place holds several records of one query again
 
